@@ -116,6 +116,15 @@ class Inhomogeneous(Exception):
     pass
 
 
+def _is_plain_constant(node: ast.expr) -> bool:
+    if isinstance(node, ast.Constant):
+        return True
+    if isinstance(node, ast.UnaryOp):
+        return _is_plain_constant(node.operand)
+    nm = (attr_chain(node) or "").split(".")[-1] if isinstance(node, (ast.Name, ast.Attribute)) else ""
+    return nm in ("TOL", "VSMALL", "VBIG", "pi")
+
+
 def homogeneity(e: ast.expr, env: Dict[str, object], defs: Dict[str, ast.expr], depth: int = 0):
     """Degree (int / float) of an expression; None for the literal 0 (any degree). Raises Inhomogeneous when a sum mixes degrees
     and _Unknown when a construct is not understood."""
@@ -132,7 +141,7 @@ def homogeneity(e: ast.expr, env: Dict[str, object], defs: Dict[str, ast.expr], 
     if isinstance(e, ast.Attribute):
         if e.attr in ("pi", "TOL", "VSMALL", "VBIG"):
             return 0
-        if e.attr in ("position", "center", "origin", "point"):
+        if e.attr in ("position", "center", "origin", "point", "points", "positions"):
             return 1
         if e.attr in ("length", "radius"):
             return 1
@@ -160,12 +169,26 @@ def homogeneity(e: ast.expr, env: Dict[str, object], defs: Dict[str, ast.expr], 
         raise _Unknown("operator")
     if isinstance(e, ast.Call):
         nm = (attr_chain(e.func) or "").split(".")[-1]
+        if nm in ("unit_vector", "angle_between", "sin", "cos", "tan", "arccos", "arcsin", "arctan2", "sign", "radians", "get_side_normals"):
+            return 0
+        if nm in ("get_side_points", "get_side_center", "get_edge_lengths") or (nm in LENGTH_CALLS and nm != "norm"):
+            return 1
         args = [homogeneity(a, env, defs, depth) for a in e.args]
         if nm in ("norm", "abs", "fabs", "absolute", "asarray", "array", "float", "max", "min", "sum", "mean") and args:
             known = [a for a in args if a is not None]
             if len(set(known)) > 1:
                 raise Inhomogeneous(f"'{ast.unparse(e)[:60]}' combines quantities of degree {sorted(set(known))}")
             return known[0] if known else None
+        if nm in ("maximum", "minimum", "clip", "fmax", "fmin") and args:
+            # a floor / ceiling by a small or unit constant does not change how the quantity scales
+            known = [a for a, node in zip(args, e.args) if a is not None and not _is_plain_constant(node)]
+            if len(set(known)) > 1:
+                raise Inhomogeneous(f"'{ast.unparse(e)[:60]}' combines quantities of degree {sorted(set(known))}")
+            return known[0] if known else 0
+        if nm in ("roll", "take", "expand_dims", "squeeze", "flip", "copy", "reshape", "transpose", "atleast_1d", "atleast_2d") and args:
+            return args[0]
+        if nm in ("get_side_points", "get_side_center", "get_edge_lengths"):
+            return 1
         if nm in ("cross", "dot", "inner", "vdot") and len(args) == 2:
             return None if None in args else args[0] + args[1]
         if nm == "dot" and len(args) == 1 and isinstance(e.func, ast.Attribute):
@@ -175,8 +198,6 @@ def homogeneity(e: ast.expr, env: Dict[str, object], defs: Dict[str, ast.expr], 
             return None if args[0] is None else args[0] / 2
         if nm in ("unit_vector", "angle_between", "sin", "cos", "tan", "arccos", "arcsin", "arctan2", "sign", "radians"):
             return 0
-        if nm in LENGTH_CALLS:
-            return 1
         raise _Unknown(nm)
     raise _Unknown(type(e).__name__)
 
@@ -298,4 +319,65 @@ def perpendicular_guards_rule(repo: Repo, prop: str, rule_id: str, module_prefix
 
         visit(fn.node.body)
     r.require(n >= floor, f"only {n} perpendicularity guards found")
+    return r
+
+
+def angle_arguments_rule(repo: Repo, prop: str, rule_id: str, modules=("optimize.cell",), floor: int = 2) -> RuleRun:
+    """'the quality measure does not depend on the size of the cell': every angle of the measure is the arc cosine (sine) of a
+    quantity that does not scale with the cell - a dot product of two vectors each divided by ITS OWN length. The homogeneity
+    degree of the argument of every inverse trigonometric call in the quality kernels is followed through the function
+    (points 1, unit vectors 0, norms keep, products add, quotients subtract); a vector normalised by the length of another
+    (already normalised) vector leaves a degree-1 argument: the angle of a non-square corner then changes with the cell's size."""
+    from .model import AnalysisError
+
+    r = RuleRun(prop, rule_id, floor=floor, what="the argument of every arccos / arcsin of the quality kernels is of degree 0 in the cell's size (each vector divided by its own length)")
+    n = 0
+    for mname in modules:
+        mod = repo.module(mname)
+        for fn in sorted(repo.all_functions(), key=lambda f_: f_.qualname):
+            if fn.module is not mod:
+                continue
+            calls = [c for c in ast.walk(fn.node) if isinstance(c, ast.Call) and (attr_chain(c.func) or "").split(".")[-1] in ("arccos", "arcsin", "acos", "asin") and c.args]
+            if not calls:
+                continue
+            env: Dict[str, object] = {}
+            k = 0
+
+            def visit(body):
+                nonlocal n, k
+                for st in body:
+                    for c in [c for c in calls if any(c is x for x in ast.walk(st))] if not isinstance(st, (ast.If, ast.For, ast.While, ast.With, ast.Try)) else []:
+                        try:
+                            deg = homogeneity(c.args[0], env, {})
+                        except Inhomogeneous as err:
+                            r.bad(fn, f"{fn.qualname}: the argument of '{ast.unparse(c)[:60]}' mixes quantities that scale differently with the cell ({err})", c, key=f"angle#{k}")
+                            k += 1
+                            n += 1
+                            continue
+                        except _Unknown as err:
+                            raise AnalysisError(f"{fn.qualname}: scaling degree of the argument of '{ast.unparse(c)[:60]}' not determined ({err})") from err
+                        n += 1
+                        r.check(
+                            deg in (None, 0),
+                            fn,
+                            f"'{ast.unparse(c)[:50]}': argument of degree {deg}",
+                            f"{fn.qualname}: the argument of '{ast.unparse(c)[:70]}' scales with the size of the cell to the power {deg}: one of the two vectors is not divided by its own length "
+                            "(e.g. by the length of the other, already normalised one), so the 'cosine' is cos(angle) times an edge length - the angle of every non-right corner, and with it the quality of "
+                            "the cell, changes when the mesh is scaled",
+                            c,
+                            key=f"angle#{k}",
+                        )
+                        k += 1
+                    if isinstance(st, ast.Assign) and len(st.targets) == 1 and isinstance(st.targets[0], ast.Name):
+                        try:
+                            env[st.targets[0].id] = homogeneity(st.value, env, {})
+                        except (_Unknown, Inhomogeneous):
+                            env.pop(st.targets[0].id, None)
+                    for sub in ("body", "orelse", "finalbody"):
+                        inner = getattr(st, sub, None)
+                        if isinstance(inner, list) and inner and isinstance(inner[0], ast.stmt) and not isinstance(st, (ast.FunctionDef, ast.ClassDef)):
+                            visit(inner)
+
+            visit(fn.node.body)
+    r.require(n >= floor, f"only {n} inverse-trigonometric calls found in the quality kernels")
     return r
